@@ -7,6 +7,14 @@ import Ecpint.Model.EcpLoad
 import Ecpint.Gen.EcpData
 import Ecpint.Gen.PowFns
 import Ecpint.Gen.Constants
+import Ecpint.Lemmas.EcpLoad
+import Mathlib.Tactic.Ring
+import Mathlib.Tactic.FieldSimp
+import Mathlib.Tactic.Linarith
+import Mathlib.Algebra.Field.Basic
+import Mathlib.Data.List.Perm.Basic
+import Mathlib.Data.List.Induction
+import Mathlib.Tactic.IntervalCases
 
 namespace Ecpint.C16
 open Ecpint.EcpLoad Ecpint.Gen
@@ -27,5 +35,260 @@ theorem xml_well_formed :
       a.maxl ≤ LIBECPINT_MAX_L ∧ a.shells.length = a.maxl + 1 ∧
       (∀ sh ∈ a.shells, sh.nexp = sh.prims.length ∧ sh.lval ≤ a.maxl ∧ ∀ p ∈ sh.prims, 0 ≤ p.n ∧ p.n ≤ 22) ∧
       a.shells.map (·.lval) = (List.range (a.maxl + 1)).map (blockL a.maxl) := by decide +kernel
+
+
+/-! ### the container: bookkeeping for every sequence of `addPrimitive` calls -/
+
+/-- one `addPrimitive(n, l, a, d, needSort)` call -/
+structure AddCall where
+  n : Int
+  l : Nat
+  a : Dec
+  d : Dec
+  needSort : Bool
+
+def addAll (maxL : Nat) (cs : List AddCall) : ECPState :=
+  cs.foldl (fun s c => addPrimitive s c.n c.l c.a c.d c.needSort) (ECPState.empty maxL)
+
+def stored (c : AddCall) : Gauss := { n := c.n - 2, l := c.l, a := c.a, d := c.d }
+
+/-- number of stored primitives with angular momentum below lx -/
+def below (gs : List Gauss) (lx : Nat) : Nat := (gs.filter fun g => g.l < lx).length
+
+theorem sortByL_perm (gs : List Gauss) : (sortByL gs).Perm gs := by
+  have h := foldl_insertByL_perm gs []
+  rw [List.nil_append] at h
+  exact h
+
+theorem sortByL_sorted (gs : List Gauss) : (sortByL gs).Pairwise (fun a b => a.l ≤ b.l) :=
+  foldl_insertByL_sorted gs [] List.Pairwise.nil
+
+/-! helper lemmas about `below` and `addAll` -/
+
+theorem below_perm {g1 g2 : List Gauss} (h : g1.Perm g2) (lx : Nat) : below g1 lx = below g2 lx :=
+  (h.filter _).length_eq
+
+theorem below_nil (lx : Nat) : below [] lx = 0 := rfl
+
+theorem below_cons (g : Gauss) (gs : List Gauss) (lx : Nat) :
+    below (g :: gs) lx = below gs lx + (if g.l < lx then 1 else 0) := by
+  unfold below
+  rw [List.filter_cons]
+  split <;> simp_all
+
+theorem below_append_singleton (gs : List Gauss) (g : Gauss) (lx : Nat) :
+    below (gs ++ [g]) lx = below gs lx + (if g.l < lx then 1 else 0) := by
+  rw [below_perm (List.perm_append_singleton g gs) lx, below_cons]
+
+theorem below_eq_zero_of_le (gs : List Gauss) (m l : Nat) (h : ∀ b ∈ gs, m ≤ b.l) (hl : l ≤ m) :
+    below gs l = 0 := by
+  unfold below
+  rw [List.length_eq_zero_iff, List.filter_eq_nil_iff]
+  intro b hb
+  have := h b hb
+  simp only [decide_eq_true_eq]
+  omega
+
+theorem filter_eq_nil_of_lt (gs : List Gauss) (m l : Nat) (h : ∀ b ∈ gs, m ≤ b.l) (hl : l < m) :
+    (gs.filter fun g => g.l = l) = [] := by
+  rw [List.filter_eq_nil_iff]
+  intro b hb
+  have := h b hb
+  simp only [decide_eq_true_eq]
+  omega
+
+theorem addAll_nil (maxL : Nat) : addAll maxL [] = ECPState.empty maxL := rfl
+
+theorem addAll_snoc (maxL : Nat) (cs : List AddCall) (c : AddCall) :
+    addAll maxL (cs ++ [c]) = addPrimitive (addAll maxL cs) c.n c.l c.a c.d c.needSort := by
+  simp [addAll, List.foldl_append]
+
+theorem container_inv_aux (maxL : Nat) (cs : List AddCall) (h : ∀ c ∈ cs, c.l ≤ maxL) :
+    (addAll maxL cs).N = cs.length ∧ (addAll maxL cs).gaussians.Perm (cs.map stored) ∧
+    (addAll maxL cs).lStarts.length = maxL + 2 ∧
+    (∀ lx, lx ≤ maxL + 1 → (addAll maxL cs).lStarts.getD lx 0 = below (addAll maxL cs).gaussians lx) ∧
+    (addAll maxL cs).L = (cs.map fun c => (c.l : Int)).foldl max (-1) := by
+  induction cs using List.reverseRecOn with
+  | nil =>
+    refine ⟨rfl, List.Perm.refl _, ?_, ?_, rfl⟩
+    · simp [addAll_nil, ECPState.empty]
+    · intro lx hlx
+      have hlt : lx < maxL + 2 := by omega
+      simp [addAll_nil, ECPState.empty, below_nil, List.getD_eq_getElem?_getD, hlt]
+  | append_singleton cs c ih =>
+    have hcs : ∀ c ∈ cs, c.l ≤ maxL := fun x hx => h x (List.mem_append_left _ hx)
+    have hc : c.l ≤ maxL := h c (List.mem_append_right _ (List.mem_singleton_self c))
+    obtain ⟨iN, iP, iLen, iS, iL⟩ := ih hcs
+    rw [addAll_snoc]
+    have hperm := addPrimitive_gaussians_perm (addAll maxL cs) c.n c.l c.a c.d c.needSort
+    refine ⟨?_, ?_, ?_, ?_, ?_⟩
+    · rw [addPrimitive_N, iN, List.length_append, List.length_singleton]
+    · refine hperm.trans ?_
+      rw [List.map_append, List.map_singleton]
+      exact iP.append_right _
+    · rw [addPrimitive_lStarts, bump_length, iLen]
+    · intro lx hlx
+      rw [addPrimitive_lStarts, bump_getD _ _ _ (by omega), below_perm hperm, below_append_singleton,
+        iS lx hlx]
+    · rw [addPrimitive_L, iL, List.map_append, List.map_singleton, foldl_max_append_singleton]
+
+/-- **container invariant** after ANY sequence of `addPrimitive` calls (angular momenta within the build's
+limit; sorting after each call or not): N counts the primitives, the stored list is a permutation of what was
+added with the power reduced by two, `l_starts[lx]` is the number of primitives with l < lx, and L is the
+largest angular momentum (−1 when empty). -/
+theorem container_inv (maxL : Nat) (cs : List AddCall) (h : ∀ c ∈ cs, c.l ≤ maxL) :
+    let s := addAll maxL cs
+    s.N = cs.length ∧ s.gaussians.Perm (cs.map stored) ∧ s.lStarts.length = maxL + 2 ∧
+    (∀ lx, lx ≤ maxL + 1 → s.lStarts.getD lx 0 = below s.gaussians lx) ∧
+    s.L = (cs.map fun c => (c.l : Int)).foldl max (-1) :=
+  container_inv_aux maxL cs h
+
+/-- **grouping**: for ANY arrangement of the primitives that is ordered by angular momentum — whichever one
+`std::sort` produced — the index window `[below l, below (l+1))` holds exactly the primitives of angular
+momentum l, in their stored order. -/
+theorem window_spec (gs : List Gauss) (hs : gs.Pairwise (fun a b => a.l ≤ b.l)) (l : Nat) :
+    (gs.drop (below gs l)).take (below gs (l + 1) - below gs l) = gs.filter fun g => g.l = l := by
+  induction gs with
+  | nil => simp
+  | cons h t ih =>
+    rw [List.pairwise_cons] at hs
+    obtain ⟨hh, ht⟩ := hs
+    have ih := ih ht
+    rw [below_cons, below_cons, List.filter_cons]
+    rcases Nat.lt_trichotomy h.l l with hlt | heq | hgt
+    · have h1 : h.l < l + 1 := by omega
+      have h2 : ¬ h.l = l := by omega
+      simp only [hlt, h1, h2, if_true, decide_false, Bool.false_eq_true, if_false]
+      rw [List.drop_succ_cons, Nat.add_sub_add_right]
+      exact ih
+    · subst heq
+      have hz : below t h.l = 0 := below_eq_zero_of_le t h.l h.l hh (Nat.le_refl _)
+      rw [hz] at ih ⊢
+      simp only [Nat.lt_irrefl, Nat.lt_succ_self, if_true, if_false, decide_true, Nat.add_zero,
+        Nat.sub_zero, List.drop_zero, List.take_succ_cons] at ih ⊢
+      rw [ih]
+    · have h1 : ¬ h.l < l + 1 := by omega
+      have h2 : ¬ h.l < l := by omega
+      have h3 : ¬ h.l = l := by omega
+      have hz : below t l = 0 := below_eq_zero_of_le t h.l l hh (by omega)
+      have hz1 : below t (l + 1) = 0 := below_eq_zero_of_le t h.l (l + 1) hh (by omega)
+      rw [hz, hz1, filter_eq_nil_of_lt t h.l l hh hgt]
+      simp [h1, h2, h3]
+
+/-! ### the evaluator -/
+
+section
+variable {K : Type} [Field K]
+
+theorem foldl_add_eq_sum {β : Type} (f : β → K) (l : List β) (a : K) :
+    l.foldl (fun acc g => acc + f g) a = a + (l.map f).sum := by
+  induction l generalizing a with
+  | nil => simp
+  | cons h t ih =>
+    rw [List.foldl_cons, ih, List.map_cons, List.sum_cons, add_assoc]
+
+/-- **`evaluate(r, l)` is the sum of the Gaussians of angular momentum l**, for any state whose primitives are
+ordered by l and whose `l_starts` are the counts (what `container_inv` + `sort` guarantee). -/
+theorem evaluate_spec (pw : Nat → K → K) (ex : K → K) (val : Dec → K) (maxPow : Nat) (s : ECPState) (r : K) (l : Nat)
+    (hs : s.gaussians.Pairwise (fun a b => a.l ≤ b.l))
+    (h0 : s.lStarts.getD l 0 = below s.gaussians l) (h1 : s.lStarts.getD (l + 1) 0 = below s.gaussians (l + 1)) :
+    evaluate pw ex val maxPow s r l
+      = ((s.gaussians.filter fun g => g.l = l).map fun g =>
+          pw (powIndex maxPow g.n) r * val g.d * ex (-(val g.a) * (r * r))).sum := by
+  unfold evaluate
+  simp only
+  rw [h0, h1, window_spec _ hs, foldl_add_eq_sum, zero_add]
+
+/-- the hand-unrolled power functions are powers: `FAST_POW[i](z) = z^i` for i = 0 … 20 -/
+theorem fastPow_spec (z : K) (i : Nat) (hi : i ≤ 20) : fastPow i z = z ^ i := by
+  interval_cases i <;>
+    simp only [fastPow, Ecpint.Gen.pow_0, Ecpint.Gen.pow_1, Ecpint.Gen.pow_2, Ecpint.Gen.pow_3,
+      Ecpint.Gen.pow_4, Ecpint.Gen.pow_5, Ecpint.Gen.pow_6, Ecpint.Gen.pow_7, Ecpint.Gen.pow_8,
+      Ecpint.Gen.pow_9, Ecpint.Gen.pow_10, Ecpint.Gen.pow_11, Ecpint.Gen.pow_12, Ecpint.Gen.pow_13,
+      Ecpint.Gen.pow_14, Ecpint.Gen.pow_15, Ecpint.Gen.pow_16, Ecpint.Gen.pow_17, Ecpint.Gen.pow_18,
+      Ecpint.Gen.pow_19, Ecpint.Gen.pow_20, Nat.reduceEqDiff, if_true, if_false] <;>
+    ring
+
+/-- … and the two negative powers sit at the end of the table -/
+theorem fastPow_neg (z : K) : fastPow 21 z = z⁻¹ ∧ fastPow 22 z = (z ^ 2)⁻¹ := by
+  constructor
+  · simp [fastPow, Ecpint.Gen.pow_m1]
+  · simp [fastPow, Ecpint.Gen.pow_m2, pow_two]
+
+end
+
+/-- the evaluator's index mapping `n > -1 ? n : MAX_POW - n` sends every power −2 … 20 to its own table entry -/
+theorem powIndex_spec (n : Int) (h0 : -2 ≤ n) (h1 : n ≤ 20) :
+    powIndex MAX_POW n < fastPowSize ∧
+    powIndex MAX_POW n = (if 0 ≤ n then n.toNat else if n = -1 then 21 else 22) := by
+  unfold powIndex MAX_POW fastPowSize
+  interval_cases n <;> decide
+
+/-! ### the loader -/
+
+/-- what loading an atom definition must yield: every primitive of every shell, power reduced by two, tagged
+with its shell's angular momentum -/
+def expected (a : XmlAtom) : List Gauss :=
+  a.shells.flatMap fun sh => sh.prims.map fun p => { n := p.n - 2, l := sh.lval, a := p.x, d := p.c }
+
+/-- the `addPrimitive` calls `addECP_from_file` makes for one atom definition (always `needSort = true`) -/
+def calls (a : XmlAtom) : List AddCall :=
+  a.shells.flatMap fun sh => sh.prims.map fun p => ⟨p.n, sh.lval, p.x, p.c, true⟩
+
+theorem loadAtom_eq (maxL : Nat) (a : XmlAtom) : loadAtom maxL a = sort (addAll maxL (calls a)) := by
+  unfold loadAtom addAll calls
+  rw [List.foldl_flatMap]
+  simp only [List.foldl_map]
+
+theorem calls_map_stored (a : XmlAtom) : (calls a).map stored = expected a := by
+  simp [calls, expected, List.map_flatMap, stored, Function.comp_def]
+
+theorem calls_l_le (maxL : Nat) (a : XmlAtom) (h : ∀ sh ∈ a.shells, sh.lval ≤ maxL) :
+    ∀ c ∈ calls a, c.l ≤ maxL := by
+  intro c hc
+  simp only [calls, List.mem_flatMap, List.mem_map] at hc
+  obtain ⟨sh, hsh, p, _, rfl⟩ := hc
+  exact h sh hsh
+
+/-- **loader**: for every atom definition within the build's limit, `addECP_from_file` yields exactly the
+expected primitives, ordered by angular momentum, with consistent bookkeeping. -/
+theorem load_spec (maxL : Nat) (a : XmlAtom) (h : ∀ sh ∈ a.shells, sh.lval ≤ maxL) :
+    let s := loadAtom maxL a
+    s.gaussians.Perm (expected a) ∧ s.gaussians.Pairwise (fun x y => x.l ≤ y.l) ∧
+    s.N = (expected a).length ∧
+    (∀ lx, lx ≤ maxL + 1 → s.lStarts.getD lx 0 = below s.gaussians lx) ∧
+    s.L = ((expected a).map fun g => (g.l : Int)).foldl max (-1) := by
+  obtain ⟨iN, iP, _, iS, iL⟩ := container_inv_aux maxL (calls a) (calls_l_le maxL a h)
+  show (loadAtom maxL a).gaussians.Perm (expected a) ∧ _
+  rw [loadAtom_eq]
+  rw [calls_map_stored] at iP
+  refine ⟨(sortByL_perm _).trans iP, sortByL_sorted _, ?_, ?_, ?_⟩
+  · show (addAll maxL (calls a)).N = _
+    rw [iN, ← calls_map_stored, List.length_map]
+  · intro lx hlx
+    show (addAll maxL (calls a)).lStarts.getD lx 0 = below (sortByL (addAll maxL (calls a)).gaussians) lx
+    rw [below_perm (sortByL_perm _), iS lx hlx]
+  · show (addAll maxL (calls a)).L = _
+    rw [iL, ← calls_map_stored, List.map_map]
+    rfl
+
+/-- over the shipped table: the largest angular momentum among the expected primitives of every element is its
+declared `maxl` (in particular the local part, at l = maxl, is never empty).  Kernel-checked. -/
+theorem shipped_maxL :
+    ∀ s ∈ shippedSets, ∀ a ∈ s.2.2,
+      ((expected a).map fun g => (g.l : Int)).foldl max (-1) = (a.maxl : Int) := by decide +kernel
+
+/-- instantiated for the shipped library: every shipped element loads to the primitives of its raw source -/
+theorem shipped_load :
+    ∀ s ∈ shippedSets, ∀ a ∈ interpret s.2.1,
+      (loadAtom LIBECPINT_MAX_L a).gaussians.Perm (expected a) ∧
+      (loadAtom LIBECPINT_MAX_L a).L = a.maxl := by
+  intro s hs a ha
+  rw [← xml_eq_raw s hs] at ha
+  obtain ⟨hmax, _, hsh, _⟩ := xml_well_formed s hs a ha
+  have hl : ∀ sh ∈ a.shells, sh.lval ≤ LIBECPINT_MAX_L :=
+    fun sh h => Nat.le_trans (hsh sh h).2.1 hmax
+  obtain ⟨hP, _, _, _, hL⟩ := load_spec LIBECPINT_MAX_L a hl
+  exact ⟨hP, hL.trans (shipped_maxL s hs a ha)⟩
 
 end Ecpint.C16
